@@ -640,11 +640,11 @@ func (c *c16) evalTree() {
 func (c *c16) listCells() {
 	r := c.r
 	r.Case = "list"
-	kind := r.Choose(20, "listKind")
+	kind := r.Choose(21, "listKind")
 	n := r.Range(1, 6, "listLen")
 	c.stallN = r.Choose(3, "stalls")
 	names := [...]string{"fp.MakeList", "list.Generate", "list.GenerateFrom", "list.Recurrence1", "list.Recurrence2", "list.Map", "list.Zip", "list.Scan", "list.Collect", "iterator.ToList", "list.FlatMap",
-		"list.Zip3", "list.ZipWithIndex", "list.Combine", "list.Concat", "list.FromSeq/FromSlice/ReverseSeq/ReverseSlice", "list.Ap", "list.Flatten", "list.FilterMap", "list.Map2"}
+		"list.Zip3", "list.ZipWithIndex", "list.Combine", "list.Concat", "list.FromSeq/FromSlice/ReverseSeq/ReverseSlice", "list.Ap", "list.Flatten", "list.FilterMap", "list.Map2", "fp.MakeList (tail computed from the node's own head)"}
 	r.MixFingerprintS(names[kind])
 	r.MixFingerprint(uint64(n))
 	want := make([]int, n)
@@ -680,6 +680,34 @@ func (c *c16) listCells() {
 			}
 			return list.Of(v, v+100)
 		})
+	case 20:
+		// the natural "iterate": the tail thunk of a node reads that node's own head (and the head thunk of the last
+		// node looks at nothing else) - head and tail of one node are independent deferred computations
+		hk, tk := per("head"), per("tail")
+		var mk func(i, v int) fp.List[int]
+		mk = func(i, v int) fp.List[int] {
+			var self fp.List[int]
+			self = fp.MakeList(func() fp.Option[int] {
+				c.enter(hk[i])
+				defer c.leave(hk[i])
+				if i >= n {
+					return fp.None[int]()
+				}
+				return fp.Some(v)
+			}, func() fp.List[int] {
+				c.enter(tk[i])
+				defer c.leave(tk[i])
+				if i >= n {
+					return list.Empty[int]()
+				}
+				return mk(i+1, self.Head()+3)
+			})
+			return self
+		}
+		l = mk(0, 10)
+		for i := range want {
+			want[i] = 10 + 3*i
+		}
 	case 11, 12, 13, 14, 15, 16, 17, 18, 19:
 		// the remaining constructors of package list that build memoised cells or defer a callback
 		cgen := func(prefix string, m, base int) fp.List[int] {
